@@ -915,6 +915,9 @@ bool dispatch_api(State& st, const std::string& op, const json& a, json& ret)
         out["statements"] = 0;
         out["stopped"] = "max_k";
         long long k_stride = a.value("k_stride", 1LL);   // > 1: only every k_stride-th statement is failed (long operations)
+        // "at_prepare": the k-th statement fails when it is compiled (sqlite3_prepare_v2) instead of when it is first stepped
+        struct SiteGuard { ~SiteGuard() { shim_set_fault_site(false); } } site_guard;
+        shim_set_fault_site(a.value("at_prepare", false));
         for (long long k = 1; k <= max_k; k += k_stride)
         {
             shim_begin_op();
